@@ -107,3 +107,14 @@ MUTANTS["C10"] = [
     ("skip-after-split", [(PU, "        s_p[i:1] = [p_list]", "        s_p[i:1] = [p_list]\n        i += 1")]),
     ("flatness-doubled", [(PU, "            if not points_in_tolerance(b_list, flat):", "            if not points_in_tolerance(b_list, 2 * flat):")]),
 ]
+
+MUTANTS["C11"] = [
+    ("xmax-set-missing-member", [(PU, '    elif par_align in {"xmaxymin", "xmaxymid", "xmaxymax"}:', '    elif par_align in {"xmaxymin", "xmaxymax"}:')]),
+    ("none-falls-through", [(PU, '    if par_align == "none":', '    if par_align == "None":')]),
+    ("lower-removed", [(PU, "        par_array = p_a_r.strip().replace(',', ' ').lower().split()", "        par_array = p_a_r.strip().replace(',', ' ').split()")]),
+    ("ymax-uses-half", [(PU, "            o_y = -min_y + excess_height\n", "            o_y = -min_y + excess_height / 2\n")]),
+    ("defer-shifts-mos", [(PU, "                    if len(par_array) > 2:\n                        par_mos = par_array[2]", "                    if len(par_array) > 2:\n                        par_mos = par_array[1]")]),
+    ("slice-scale-swapped", [(PU, "            or ((ar_doc < ar_vb) and (par_mos == \"slice\"))):", "            or ((ar_doc > ar_vb) and (par_mos == \"slice\"))):")]),
+    ("none-offset-sign", [(PU, "        s_y = d_height / height\n        o_x = -min_x\n        o_y = -min_y\n        return s_x, s_y, o_x, o_y", "        s_y = d_height / height\n        o_x = -min_x\n        o_y = min_y\n        return s_x, s_y, o_x, o_y")]),
+    ("doc-height-zero-allowed", [(PU, "    if d_width <= 0 or d_height <= 0:", "    if d_width <= 0 or d_height < 0:")]),
+]
